@@ -40,7 +40,7 @@ func IsEditOp(op string) bool {
 	switch op {
 	case "rootset", "rootdel", "oset", "odel", "onest", "replObj", "replArr", "replText",
 		"aadd", "ains", "adel", "amove", "amovefront", "aset", "tedit", "tstyle", "cinc",
-		"trtext", "trins", "trdel", "trstyle", "undo", "redo", "pset", "pclear", "rootclear":
+		"trtext", "trins", "trdel", "trstyle", "undo", "redo", "pset", "pclear", "pmix", "rootclear":
 		return true
 	}
 	return false
@@ -79,6 +79,13 @@ func ApplyEdit(d *document.Document, s Step) (desc string, err error) {
 			v := fmt.Sprintf("v%d", s.B)
 			p.Set(k, v)
 			desc = fmt.Sprintf("presence.%s=%s", k, v)
+		case "pmix":
+			// one Update that edits the root AND touches the presence
+			k := []string{"cursor", "name"}[s.A%2]
+			v := fmt.Sprintf("m%d", s.B)
+			r.SetInteger([]string{"k0", "k1"}[s.C%2], s.B)
+			p.Set(k, v)
+			desc = fmt.Sprintf("root.k%d=%d + presence.%s=%s (one update)", s.C%2, s.B, k, v)
 		case "pclear":
 			p.Clear()
 			desc = "presence.clear"
